@@ -190,6 +190,9 @@ class MutableChecker:
         corrupt_share_locators = []
         problems = []
         if self.bad_shares:
+            # the verifier found corrupt shares: whatever the counts of the
+            # remaining shares say, this file needs attention
+            healthy = False
             report.append("Corrupt Shares:")
             summary.append("Corrupt Shares:")
         for (server, shnum, f) in sorted(self.bad_shares, key=id):
